@@ -25,6 +25,7 @@ type Cfg struct {
 	Dotu       bool  `json:"Dotu"`
 	Handshake  bool  `json:"Handshake"`
 	Bystander  bool  `json:"Bystander"` // a second connection with one attached fid
+	FixClose   bool  `json:"FixClose"`  // the tree has the close(conn.done) repair: Respond never blocks after close
 }
 
 type Behaviour struct {
@@ -34,24 +35,25 @@ type Behaviour struct {
 
 // Case is one controlled execution.
 type Case struct {
-	C           *Ctl
-	Cfg         Cfg
-	ch          *ConnH
-	by          *ConnH  // bystander connection (nil if none)
-	Steps       [][]any // steps performed (for the replay file)
-	byTag       int
-	nwire       int
-	Trace       []Event // internal trace lines (act, args, post)
-	rng         *rand.Rand
-	Drift       string
-	late        map[int]bool // requests whose implementation call returned without answering
-	answered    map[int]bool
-	extraDone   map[int]bool
-	kinds       map[int]string
-	Closed      bool
-	written     map[int]bool // requests whose reply the send goroutine has started to write
-	enq, atSend map[int]bool
-	noTrace     bool // stop logging internal trace lines (after out-of-model probe traffic)
+	C            *Ctl
+	Cfg          Cfg
+	ch           *ConnH
+	by           *ConnH  // bystander connection (nil if none)
+	Steps        [][]any // steps performed (for the replay file)
+	byTag        int
+	closeEntered bool
+	nwire        int
+	Trace        []Event // internal trace lines (act, args, post)
+	rng          *rand.Rand
+	Drift        string
+	late         map[int]bool // requests whose implementation call returned without answering
+	answered     map[int]bool
+	extraDone    map[int]bool
+	kinds        map[int]string
+	Closed       bool
+	written      map[int]bool // requests whose reply the send goroutine has started to write
+	enq, atSend  map[int]bool
+	noTrace      bool // stop logging internal trace lines (after out-of-model probe traffic)
 }
 
 func toInt(v any) int {
@@ -261,6 +263,7 @@ func (k *Case) Do(step []any) error {
 		k.Closed = true
 	case "CloseEnter":
 		err = c.GrantCmd("close_enter", 0, k.ch.Idx, Cmd{})
+		k.closeEntered = err == nil
 	case "CloseDestroy":
 		err = c.GrantCmd("close_destroy", 0, k.ch.Idx, Cmd{})
 	default:
@@ -346,7 +349,7 @@ func (k *Case) enabledSteps() [][]any {
 		case "resp_post":
 			out = append(out, []any{"RPost", 0, p.Req})
 		case "resp_enq":
-			if !senderBusy || k.queued() < k.Cfg.Maxpend {
+			if !senderBusy || k.queued() < k.Cfg.Maxpend || (k.Cfg.FixClose && k.closeEntered) {
 				out = append(out, []any{"REnq", 0, p.Req})
 			}
 		case "resp_next":
@@ -354,7 +357,7 @@ func (k *Case) enabledSteps() [][]any {
 		case "send_got":
 			out = append(out, []any{"SWrite"})
 		case "close_enter":
-			if !senderBusy {
+			if !senderBusy || k.Cfg.FixClose {
 				out = append(out, []any{"CloseEnter"})
 			}
 		case "close_destroy":
